@@ -68,6 +68,10 @@ type Proc struct {
 	// Unprivileged: the process runs as an ordinary user (uid/gid 65534) that owns its working
 	// directory, instead of as root, which is exempt from every permission bit
 	Unprivileged bool `json:"unprivileged,omitempty"`
+	// Env: extra environment of the process (LANG, COLUMNS, HOME= ...: deployment differences; coca
+	// reads no environment variable on any claimed path). Umask: e.g. "077".
+	Env   []string `json:"env,omitempty"`
+	Umask string   `json:"umask,omitempty"`
 }
 
 type Record struct {
@@ -152,8 +156,15 @@ func (e *Env) RunProc(p *Proc, workDir string, timeout time.Duration, st *Stats,
 	ctx, cancel := context.WithTimeout(context.Background(), timeout)
 	defer cancel()
 	cmd := exec.CommandContext(ctx, e.SimprocBin, scriptPath, resultPath)
-	if p.MaxOpenFiles > 0 {
-		cmd = exec.CommandContext(ctx, "/bin/sh", "-c", fmt.Sprintf("ulimit -n %d && exec \"$0\" \"$@\"", p.MaxOpenFiles), e.SimprocBin, scriptPath, resultPath)
+	if p.MaxOpenFiles > 0 || p.Umask != "" {
+		pre := ""
+		if p.MaxOpenFiles > 0 {
+			pre += fmt.Sprintf("ulimit -n %d && ", p.MaxOpenFiles)
+		}
+		if p.Umask != "" {
+			pre += "umask " + p.Umask + " && "
+		}
+		cmd = exec.CommandContext(ctx, "/bin/sh", "-c", pre+"exec \"$0\" \"$@\"", e.SimprocBin, scriptPath, resultPath)
 	}
 	if gomaxprocs <= 0 {
 		gomaxprocs = 1
@@ -165,6 +176,7 @@ func (e *Env) RunProc(p *Proc, workDir string, timeout time.Duration, st *Stats,
 	if p.TZ != "" {
 		cmd.Env = append(cmd.Env, "TZ="+p.TZ)
 	}
+	cmd.Env = append(cmd.Env, p.Env...)
 	unpriv := p.Unprivileged && os.Geteuid() == 0
 	if unpriv {
 		cmd.SysProcAttr = &syscall.SysProcAttr{Credential: &syscall.Credential{Uid: 65534, Gid: 65534}}
